@@ -4,5 +4,6 @@ CONSTANTS NClasses = 3
  Nla = {"none"}
  RunCode = TRUE
  ZeroK = TRUE
+ WithU = FALSE
 INVARIANT Emit
 CHECK_DEADLOCK FALSE
